@@ -344,6 +344,18 @@ func TestC16(t *testing.T) {
 				t.Fatalf("HARNESS: %v", err)
 			}
 			ba.impl, ba.real, ba.learnt = rep.auto, true, rep
+			// the learner only probes the alphabet: make sure the codec knows no other
+			// message type (else a permitted message could go unnoticed) - harness guard
+			inAlphabet := map[uint8]bool{}
+			for _, sy := range b.syms {
+				inAlphabet[sy.mk[0]().Type()] = true
+			}
+			for ty := 0; ty < 64; ty++ {
+				_, err := b.fromCbor(uint(ty), xcbor.A(xcbor.U(uint64(ty))).Encode())
+				if !inAlphabet[uint8(ty)] && (err == nil || !strings.Contains(err.Error(), "unknown message type")) {
+					t.Fatalf("HARNESS: %s: the codec seems to know message type %d, which is not in the harness alphabet (err=%v)", b.id, ty, err)
+				}
+			}
 			learnedProbes += rep.probes
 			for _, c := range rep.conflicts {
 				rec.Eval()
@@ -422,6 +434,8 @@ func TestC16(t *testing.T) {
 	maxLen := rec.Pick(40, 60)
 	defer func() {
 		rec.SetExtra("traces_validated_against_impl", ec.validated)
+		rec.SetExtra("n_traces_validated_against_impl", ec.validated) // n_*: summed over shards by the driver
+		rec.SetExtra("n_real_object_traces_validated", ecReal.validated)
 		rec.SetExtra("engine_traces_cut_by_handler", ec.cut)
 		rec.SetExtra("engine_traces_reaching_terminal", ec.terminal)
 		rec.SetExtra("real_object_traces_validated", ecReal.validated)
